@@ -56,7 +56,8 @@ def run(R):
         "md5crypt": [b"$1$", b"$1$s", b"$1$saltsalt", b"$1$saltsalt$"], "sha256crypt": [b"$5$rounds=1000$", b"$5$rounds=1000$saltsaltsaltsalt", b"$5$rounds=1234$salt$", b"$5$salt"],
         "sha512crypt": [b"$6$rounds=1000$", b"$6$rounds=1000$saltsaltsaltsalt", b"$6$rounds=1999$s$", b"$6$salt"], "sha1crypt": [b"$sha1$1$s", b"$sha1$24$saltsalt$", b"$sha1$300$" + b"x" * 64],
         "sunmd5": [b"$md5,rounds=5$saltsalt$", b"$md5$saltsalt$", b"$md5,rounds=904$x$"], "nt": [b"$3$"], "descrypt": [b"ab", b"..", b"zz", b"Kx"], "bigcrypt": [b"ab............", b"zz" + b"." * 30],
-        "bsdicrypt": [b"_J9..salt", b"_/...abcd", b"_1...zzzz", b"_.....aaa"], "scrypt": [b"$7$66..../....saltsalt", b"$7$4/..../....x", b"$7$86..../....SodiumChloride"],
+        # (odd and EVEN iteration counts: crypt_gensalt only emits odd ones, other implementations' hashes carry either - seeded/C02h)
+        "bsdicrypt": [b"_J9..salt", b"_/...abcd", b"_1...zzzz", b"_.....aaa", b"_K9..Salt", b"_0...abcd", b"_2...wxyz", b"_Gl/.ABCD"], "scrypt": [b"$7$66..../....saltsalt", b"$7$4/..../....x", b"$7$86..../....SodiumChloride"],
         "bcrypt": [b"$2b$04$abcdefghijklmnopqrstuu", b"$2b$05$......................"], "bcrypt_a": [b"$2a$04$abcdefghijklmnopqrstuu"], "bcrypt_x": [b"$2x$04$abcdefghijklmnopqrstuu"],
         "bcrypt_y": [b"$2y$04$abcdefghijklmnopqrstuu"], "yescrypt": [b"$y$j75$saltsaltsalt", b"$y$j85$abcd", b"$y$j75/.$abcd", b"$y$.75$abcd", b"$y$/65$abcd",
                      # explicit parallelism p (not a power of two, so that N/p is odd) and time parameter t (seeded/C02)
